@@ -23,6 +23,8 @@ import Lattigo.Model.MPShare
     rkg_r1 R <b2> <shape:v> <crp:M> <s:iv> <u:iv> <e0:IM> <e1:IM>   → M
     rkg_r2 R <shape:v> <r1agg:M> <s:iv> <u:iv> <e2:IM>     → M
     rkg_key R <shape:v> <r1:M> <r2:M>                      → M
+    crs <n> <k> (<qs:v> <ps:v> <count>)×k <stream:hex>     → M|…|M <next 8 CRS bytes, big endian>
+        the k SampleCRP calls in sequence from position 0 of the stream (raw sampled words)
 -/
 namespace Driver.C14
 open Driver Lattigo Lattigo.MP
@@ -258,6 +260,24 @@ def handleOpt (toks : List String) : Option String :=
       let g1 : GShare RPoly := ⟨qs.length - 1, (ps.length : Int) - 1, 0, r1v⟩
       let g2 : GShare RPoly := ⟨qs.length - 1, (ps.length : Int) - 1, 0, r2v⟩
       some (showCube (genRelinKey g1 g2).val)
+  | "crs" :: n :: k :: rest => do
+      let n ← n.toNat?
+      let k ← k.toNat?
+      let rec reqs : Nat → List String → Option (List CRPRequest × List String)
+        | 0, r => some ([], r)
+        | k + 1, qs :: ps :: cnt :: r => do
+            let (rs, r) ← reqs k r
+            some (⟨← parseVec? qs, ← parseVec? ps, n, ← cnt.toNat?⟩ :: rs, r)
+        | _, _ => none
+      let (rs, rest) ← reqs k rest
+      match rest with
+      | [hex] =>
+        let bytes ← parseHex? hex
+        match runCRS rs ⟨bytes.toArray, 0⟩ with
+        | none => some "err"
+        | some (polys, st) =>
+          some ("|".intercalate (polys.flatten.map showMat) ++ " " ++ toString (be64 st.bytes st.pos))
+      | _ => none
   | _ => none
 
 def handle (toks : List String) : String := (handleOpt toks).getD badOp
